@@ -5,6 +5,7 @@ import (
 	"encoding/json"
 	"fmt"
 	"os"
+	"os/exec"
 	"path/filepath"
 	"sort"
 	"strings"
@@ -439,5 +440,54 @@ func TestC17Regress(t *testing.T) {
 			t.Fatalf("C17 violated on regression [%s]: %s\nreplay: %s", rc.Note, msg, p)
 		}
 		rec.Case(true, gen.CanonTree(doc), func() any { return map[string]any{"doc": doc} }, "regression")
+	}
+}
+
+// TestC17ModelCrossCheck: the reference model itself is judged by an
+// independent implementation (python jsonschema, Draft7Validator) on generated
+// documents. A disagreement is an oracle dispute: the run is undecided, never a
+// violation.
+func TestC17ModelCrossCheck(t *testing.T) {
+	rec := stats.For("C17", "model-crosscheck")
+	py, err := exec.LookPath("python3-vt")
+	script := filepath.Join(os.Getenv("VERIF_VERIF_DIR"), "tools", "c17_jsonschema.py")
+	if err != nil || os.Getenv("VERIF_VERIF_DIR") == "" {
+		rec.Label("env:python-jsonschema-unavailable-skipped")
+		t.Skip("python3-vt not available")
+	}
+	dump := filepath.Join(t.TempDir(), "dump.jsonl")
+	f, err := os.Create(dump)
+	if err != nil {
+		t.Fatal(err)
+	}
+	n := 0
+	rapid.Check(t, func(t *rapid.T) {
+		c := genC17(t)
+		valid, merr := draft07(t).Validate(c.Doc)
+		if merr != nil {
+			t.Fatalf("VERIF-UNDECIDED model: %v", merr)
+		}
+		b, _ := json.Marshal(map[string]any{"doc": c.Doc, "valid": valid})
+		_, _ = f.Write(append(b, '\n'))
+		n++
+		rec.Case(len(c.Mutations) > 0, gen.CanonTree(c.Doc), nil, "cross-checked")
+	})
+	_ = f.Close()
+	out, err := exec.Command(py, script, filepath.Join(repoDir(), "schema"), dump).Output()
+	if err != nil {
+		rec.Label("env:python-jsonschema-unavailable-skipped")
+		t.Skipf("python jsonschema could not run: %v", err)
+	}
+	var res struct {
+		N             int               `json:"n"`
+		Count         int               `json:"count"`
+		Disagreements []json.RawMessage `json:"disagreements"`
+	}
+	if err := json.Unmarshal(bytes.TrimSpace(out), &res); err != nil {
+		t.Fatalf("VERIF-UNDECIDED cannot parse the cross-check result: %v: %s", err, out)
+	}
+	rec.Add("documents-judged-by-python-jsonschema", int64(res.N))
+	if res.Count > 0 {
+		t.Fatalf("VERIF-UNDECIDED oracle dispute: the Go draft-07 model and python jsonschema disagree on %d of %d documents, e.g. %s", res.Count, res.N, res.Disagreements[0])
 	}
 }
